@@ -48,6 +48,19 @@ class PersistentThreadWorker(PersistentWorker, ThreadWorker):
             self._dead = True
         return not alive
 
+    def terminate(self, *args, **kwargs):
+        ret = super().terminate(*args, **kwargs)
+        if ret and self._started and not self.is_child and not self._cleaned_up:
+            # The exception which stops the child can also land while the child announces the end of its results
+            # (a thread cannot be shielded from it) - then nothing closes the results pipe, a thread's death is not
+            # noticed by anybody waiting on it. Whoever stopped the child finishes the clean-up for it.
+            try:
+                self._cleanup()
+            except (OSError, ValueError):
+                # the child got as far as closing its end
+                self._cleaned_up = True
+        return ret
+
     def close(self):
         ''' Informs the child process that no more input data is expected.
             Does not synchronize the two processes - after call to this function the
